@@ -116,6 +116,17 @@ Theorem c06_shared_release_exact : forall P, page_size_ok P -> forall S, sreach 
 Proof. exact mr_shared_release_exact. Qed.
 Print Assumptions c06_shared_release_exact.
 
+(* Move ASSIGNMENT between two resources configured with different page allocators / upstreams (a configured
+   resource = (state, page allocator id), upstream id in the state): `a = std::move(b)` exchanges everything, so
+   the moved-from object releases a's former pages / oversize blocks to the allocators they came from.  Every
+   std::swap line of operator=(&&) is a regenerated Gen.move_swaps_<member>; a member copied instead of swapped
+   breaks the translator target, and the two-resource monitors of the check find the failing input. *)
+Theorem c06_move_assign_exchanges : forall a b : rsrc,
+  move_assign a b = (b, a) /\
+  release_to (snd (move_assign a b)) = release_to a /\ release_to (fst (move_assign a b)) = release_to b.
+Proof. exact mr_move_assign_exchanges. Qed.
+Print Assumptions c06_move_assign_exchanges.
+
 (* non-vacuity: real page sizes satisfy the hypothesis, fresh oracles exist, non-trivial states are reachable *)
 Example c06_params_4096 : page_size_ok 4096.
 Proof. exists 12. split; [split; discriminate|reflexivity]. Qed.
